@@ -4,6 +4,11 @@ import RsslVerif.Model.Slots
 
 `Spec.doubled` is our reading of "raw and structured buffers" on Metal (each needs a pointer and a
 size slot): byte-address buffers, buffer addresses and structured buffers, read-only or RW.
+`Spec.resource` is our reading of "bindable": the object kinds that name something bound from outside
+the shader (buffers, textures, acceleration structures, constant buffers, samplers).  The remaining
+object kinds are values that live inside a shader (`RayDesc`, `RayQuery`), a stage parameter
+(`TriangleStream`) or the intermediate `.mips` views of a texture: a global of such a type must take
+no slot.
 -/
 namespace RsslVerif.Spec.Slots
 open RsslVerif.Gen.SlotTables RsslVerif.Model.Slots
@@ -11,6 +16,16 @@ open RsslVerif.Gen.SlotTables RsslVerif.Model.Slots
 def doubled : ObjKind → Bool
   | .ByteAddressBuffer | .RWByteAddressBuffer | .BufferAddress | .RWBufferAddress
   | .StructuredBuffer | .RWStructuredBuffer => true
+  | _ => false
+
+/-- object kinds that are resources (written out by hand; `Lemmas.Slots.registerType_isSome_spec` ties the
+    extracted `get_register_type` table to it) -/
+def resource : ObjKind → Bool
+  | .Buffer | .RWBuffer | .ByteAddressBuffer | .RWByteAddressBuffer | .BufferAddress | .RWBufferAddress
+  | .StructuredBuffer | .RWStructuredBuffer
+  | .Texture2D | .Texture2DArray | .TextureCube | .TextureCubeArray | .Texture3D
+  | .RWTexture2D | .RWTexture2DArray | .RWTexture3D
+  | .RaytracingAccelerationStructure | .ConstantBuffer | .SamplerState | .SamplerComparisonState => true
   | _ => false
 
 /-- is the global a buffer address that the target lowers to an inline constant -/
@@ -23,6 +38,7 @@ def indexCount (p : Params) : Decl → Nat
   | .cbuffer _ => 1
   | .global _ ss (some k) len =>
     if ss && !p.staticSamplersHaveSlots then 0
+    else if !resource k then 0
     else if isInline p k len then 0
     else len.getD 1 * (if p.metalSlotLayout && doubled k then 2 else 1)
   | .global _ _ none _ => 0
@@ -30,7 +46,7 @@ def indexCount (p : Params) : Decl → Nat
 /-- number of inline-constant bytes the declaration must receive -/
 def inlineBytes (p : Params) : Decl → Nat
   | .global _ ss (some k) len =>
-    if ss && !p.staticSamplersHaveSlots then 0 else if isInline p k len then 8 else 0
+    if ss && !p.staticSamplersHaveSlots then 0 else if !resource k then 0 else if isInline p k len then 8 else 0
   | _ => 0
 
 def group (dflt : Nat) : Decl → Nat
@@ -42,7 +58,7 @@ def group (dflt : Nat) : Decl → Nat
 def bound (p : Params) : Decl → Bool
   | .other => false
   | .cbuffer _ => true
-  | .global _ ss (some _) _ => !(ss && !p.staticSamplersHaveSlots)
+  | .global _ ss (some k) _ => resource k && !(ss && !p.staticSamplersHaveSlots)
   | .global _ _ none _ => false
 
 /-- `TilesTo s rs e`: the ranges `(start, length)` in `rs` are laid end to end from `s` to `e`:
